@@ -4,6 +4,7 @@ Transformer nodes convert many inputs into a single output, or vice-versa.
 
 from __future__ import annotations
 
+import inspect
 import itertools
 from abc import ABC, abstractmethod
 from collections.abc import Callable
@@ -400,7 +401,14 @@ class DataclassNode(FromManyInputs, ABC):
 
     @classmethod
     def _dataclass_fields(cls):
-        return cls.dataclass.__dataclass_fields__
+        # Only what the dataclass is built from: `ClassVar` pseudo-fields and
+        # `init=False` fields are no arguments of its `__init__`
+        init_parameters = inspect.signature(cls.dataclass).parameters
+        return {
+            name: f
+            for name, f in cls.dataclass.__dataclass_fields__.items()
+            if f.init and name in init_parameters
+        }
 
     def _setup_node(self) -> None:
         super()._setup_node()
